@@ -11,6 +11,8 @@ Rewrites (one site at a time, applied to the source text):
   EQSWAP   `a == b` -> `b == a` (also !=)
   AUGEXP   `x += e` -> `x = x + e` for plain names
   PARENS   the test of an `if` / `while` wrapped in redundant parentheses
+  ELSEIFY  `if c: ...; return` + REST -> `if c: ...; return else: REST`;  NESTIF `if a and b: X` -> nested ifs;  TEMP `return e` -> `result_ = e; return result_`
+  FSTR     'a{}b'.format(x) -> f'a{x}b'
   GUARD    `if c: BODY` as last statement of a loop body / function -> `if not c: continue / return` followed by BODY
   ALIAS    an attribute path used at least twice (`self.machine.events`) bound to a new local at the top of the function
 
@@ -112,6 +114,58 @@ def twins_in(func_node, btext, offs):
             fn2.body.insert(pos, bind)
             ast.fix_missing_locations(fn2)
             out.append(("ALIAS", s, e, _indent(_u(fn2), col), func_node.lineno, "alias %s" % text))
+    # ELSEIFY: `if c: ...; return` followed by REST  ->  `if c: ...; return  else: REST`   (also continue / raise / break)
+    # NESTIF:  `if a and b: X` (no else) -> `if a:` `if b: X`
+    # TEMP:    `return expr` -> `result_ = expr; return result_`
+    for parent in [func_node] + [x for x in ast.walk(func_node) if hasattr(x, "body") and isinstance(getattr(x, "body"), list) and x is not func_node]:
+        if isinstance(parent, (ast.FunctionDef, ast.AsyncFunctionDef, ast.Lambda, ast.ClassDef)) and parent is not func_node:
+            continue
+        for fld in ("body", "orelse"):
+            lst = getattr(parent, fld, None)
+            if not isinstance(lst, list):
+                continue
+            for i, st in enumerate(lst):
+                if isinstance(st, ast.If) and not st.orelse and st.body and isinstance(st.body[-1], (ast.Return, ast.Continue, ast.Raise, ast.Break)) \
+                        and i + 1 < len(lst) and not any(isinstance(x, (ast.FunctionDef, ast.AsyncFunctionDef, ast.ClassDef)) for y in lst[i:] for x in ast.walk(y)):
+                    rest = lst[i + 1:]
+                    m = ast.If(test=st.test, body=st.body, orelse=rest)
+                    ns, _ = _rng(st, offs)
+                    _, ne = _rng(rest[-1], offs)
+                    if btext[ns:ns + 4] != b"elif":
+                        out.append(("ELSEIFY", ns, ne, _indent(_u(m), st.col_offset), st.lineno, "else-branch for the rest after `%s`" % _u(st.test)[:40]))
+                if isinstance(st, ast.If) and not st.orelse and isinstance(st.test, ast.BoolOp) and isinstance(st.test.op, ast.And) and len(st.test.values) == 2:
+                    inner = ast.If(test=st.test.values[1], body=st.body, orelse=[])
+                    m = ast.If(test=st.test.values[0], body=[inner], orelse=[])
+                    ns, ne = _rng(st, offs)
+                    if btext[ns:ns + 4] != b"elif":
+                        out.append(("NESTIF", ns, ne, _indent(_u(m), st.col_offset), st.lineno, "nest `%s`" % _u(st.test)[:50]))
+                if isinstance(st, ast.Return) and st.value is not None and not isinstance(st.value, (ast.Name, ast.Constant)) and \
+                        not any(isinstance(x, ast.Name) and x.id == "result_" for x in ast.walk(func_node)):
+                    a = ast.Assign(targets=[ast.Name(id="result_", ctx=ast.Store())], value=st.value, lineno=0, col_offset=0)
+                    r = ast.Return(value=ast.Name(id="result_", ctx=ast.Load()))
+                    ns, ne = _rng(st, offs)
+                    out.append(("TEMP", ns, ne, _indent(_u(ast.fix_missing_locations(a)) + "\n" + _u(r), st.col_offset), st.lineno, "temporary for `%s`" % _u(st.value)[:40]))
+    # FSTR: 'a{}b{}'.format(x, y) -> f'a{x}b{y}'  (positional, plain `{}` fields only)
+    for n in ast.walk(func_node):
+        if isinstance(n, ast.Call) and isinstance(n.func, ast.Attribute) and n.func.attr == "format" and isinstance(n.func.value, ast.Constant) and \
+                isinstance(n.func.value.value, str) and not n.keywords and n.args and not any(isinstance(a, ast.Starred) for a in n.args):
+            fmt = n.func.value.value
+            parts = fmt.split("{}")
+            if len(parts) != len(n.args) + 1 or "{" in "".join(parts) or "}" in "".join(parts) or "\n" in fmt or "\\" in fmt:
+                continue
+            vals = []
+            for i_, part in enumerate(parts):
+                if part:
+                    vals.append(ast.Constant(value=part))
+                if i_ < len(n.args):
+                    vals.append(ast.FormattedValue(value=n.args[i_], conversion=-1, format_spec=None))
+            js = ast.JoinedStr(values=vals)
+            try:
+                txt = _u(js)
+            except Exception:   # noqa
+                continue
+            ns, ne = _rng(n, offs)
+            out.append(("FSTR", ns, ne, txt, n.lineno, "f-string for `%s`" % _u(n)[:50]))
     # GUARD: `if c: BODY` as the last statement of a loop body / of the function -> `if not c: continue / return` + BODY
     def _guard(parent_body, kind):
         if not parent_body:
